@@ -3,7 +3,7 @@
 # (/tmp/wt/<ID>, pristine): patch applies, suite passes with it, demo fails with it and passes without.
 # On success copies it to /verif/seeded/<ID>-<X>/ with meta.json (fields filled from the runs).
 set -u
-ID="$1"; X="$2"; BASE="${3:-/tmp/wt}"; NAME="${4:-$X}"; WT=$BASE/$ID; SRC=$WT/seeded_out/$X; DST=/verif/seeded/$ID-$NAME
+ID="$1"; X="$2"; BASE="${3:-/tmp/wt}"; NAME="${4:-$X}"; PROP="${5:-$ID}"; WT=$BASE/$ID; SRC=$WT/seeded_out/$X; DST=/verif/seeded/$PROP-$NAME
 cd "$WT" || exit 2
 git checkout -q -- src
 git apply --check "$SRC/patch.diff" || { echo "$ID-$X: patch does not apply"; exit 1; }
@@ -24,7 +24,7 @@ echo "$ID-$X demo: with change exit=$W, without exit=$O"
 if [ "$W" = "0" ] || [ "$O" != "0" ]; then echo "$ID-$X: demo does not discriminate"; exit 1; fi
 mkdir -p "$DST"
 cp -r "$SRC"/. "$DST"/
-python3 - "$ID" "$NAME" "$T" "$W" "$O" <<'PY'
+python3 - "$PROP" "$NAME" "$T" "$W" "$O" <<'PY'
 import json,sys,os
 ID,X,T,W,O=sys.argv[1:6]
 dst="/verif/seeded/%s-%s"%(ID,X)
